@@ -361,9 +361,11 @@ func (s *Synchronizer) storeTask(
 	if err := s.blockchain.Store(block, commitments, stateUpdate, newClasses); err != nil {
 		committedBlock.Persisted <- err
 		if errors.Is(err, blockchain.ErrParentDoesNotMatchHead) {
-			// Block block.Number - 1 is the parent of this block which doesn't match
-			// so we need to revert the head to block.Number - 2
-			s.revertTask(ctx, block.Number-2, resetStreams)
+			// Block block.Number - 1 (our head) is not the parent of this block. Either our
+			// head was reorged away, or this block was fetched before a reorg that our head
+			// already follows. Let revertTask compare the head with the source before
+			// reverting it, so that a block the source still has is never reverted.
+			s.revertTask(ctx, block.Number-1, resetStreams)
 			return
 		}
 
